@@ -282,7 +282,9 @@ pub fn run(ctx: &Ctx) -> i32 {
     let steps: Vec<u8> = (0..PAUSE_STEPS.len() as u8).filter(|i| !excluded.iter().any(|e| e == PAUSE_STEPS[*i as usize])).collect();
     let cases = ctx.tier.pick(96, 1500);
     let tier = ctx.tier;
-    let single = ctx.open_any("agg.special_fields_skipped");
+    // with several types the flush writes them one after the other: while it is parked inside the second type the
+    // first is already readable twice (same open finding as the in-flight window), so the window would be any step
+    let single = ctx.open_any("agg.special_fields_skipped") || ctx.open("park.aggregate_in_inflight_window");
     // with several shards the other shard's flush worker runs free while one is parked (racing reads)
     let single_shard = ctx.open("race.read_during_unparked_flush");
     if matches!(ctx.tier, Tier::Thorough) {
